@@ -131,14 +131,20 @@ inductive WriteRes where
   | valueError     -- memoryview slice assignment of unequal lengths (the slice was cut at the end of the buffer)
 deriving Repr, DecidableEq
 
-/-- `_ShmSink.write(data)` on a buffer of `bufLen` bytes -/
-def Sink.write (bufLen : Nat) (s : Sink) (m : Mem) (d : List UInt8) : Sink × Mem × WriteRes :=
-  if sinkBounded && sinkGuardCmp.eval d.length ((s.end_ : Int) - s.pos) then
-    ((if sinkSticky then { s with end_ := s.pos } else s), m, .overflow)
+/-- `_ShmSink.write(data)` on a buffer of `bufLen` bytes, for a given shape of the guard in front of the copy
+    (`bounded = false`: no guard at all, the shape before the repair) -/
+def Sink.writeWith (bounded sticky : Bool) (guard : Cmp) (bufLen : Nat) (s : Sink) (m : Mem) (d : List UInt8) :
+    Sink × Mem × WriteRes :=
+  if bounded && guard.eval d.length ((s.end_ : Int) - s.pos) then
+    ((if sticky then { s with end_ := s.pos } else s), m, .overflow)
   else if s.pos + d.length > bufLen ∧ d.length ≠ 0 then
     (s, m, .valueError)
   else
     ({ s with pos := s.pos + d.length }, writeAt m s.pos d, .ok)
+
+/-- `_ShmSink.write(data)` as extracted from the source -/
+def Sink.write (bufLen : Nat) (s : Sink) (m : Mem) (d : List UInt8) : Sink × Mem × WriteRes :=
+  s.writeWith sinkBounded sinkSticky sinkGuardCmp bufLen m d
 
 /-- the IPC writer: hands its chunks to `sink.write` one after the other and stops at the first exception -/
 def feed (bufLen : Nat) : Sink → Mem → List (List UInt8) → Sink × Mem × WriteRes
